@@ -170,6 +170,31 @@ def correspond(ctx, prop, profile, nhist_quick, nhist_thorough, what, need_answe
     return {"violations": violations, "coverage": cov}
 
 
+def corpus_violations(ctx, prop, profile, histories, what):
+    """extra hand-built histories through impl / model / spec; returns (violations, lines)"""
+    cp = os.path.join(ctx.rd, profile + ".corpus")
+    with open(cp, "w") as f:
+        for h in histories:
+            f.write("\n".join(h) + "\n\n")
+    res, out = run_impl(ctx, profile, -1, corpus_path=cp)
+    if res is None:
+        rp = C.write_replay(prop, "harness-failure", {"property": prop, "kind": "impl-run-failed", "go_test_output": out[-6000:]})
+        return [Violation("impl-run-failed", "the real database failed to run the %s histories: %s" % (profile, out.strip().split("\n")[-1][:160]), rp)], 0
+    ops, impl, model, spec, stats = res
+    i, kind = first_bad(ops, impl, model, spec)
+    if i is None:
+        return [], stats["lines"]
+    starts = split_histories(ops)
+    st = max(x for x in starts if x <= i)
+    hist = [l for l in ops[st + 1:i + 1] if l]
+    payload = {"property": prop, "kind": "history", "differs_from": kind, "correspondence": what, "failed_op": ops[i], "impl": impl[i][:2000],
+               "model": model[i][:2000], "spec": spec[i][:2000], "history_len": len(hist), "history_head": hist[:12], "history_tail": hist[-12:],
+               "profile": profile, "repo": C.repo_head()}
+    rp = C.write_replay(prop, "history-" + profile, payload)
+    return [Violation(prop.lower() + "-" + profile, "%s: history of %d ops: `%s` answered `%s` by the real database, the specification says `%s`"
+                      % (what, len(hist), ops[i][:60], impl[i][:100], spec[i][:100]), rp, found_input=(kind == "spec"))], stats["lines"]
+
+
 def replay(ctx, path, profile):
     p = json.load(open(path))
     if p.get("kind") != "history":
